@@ -60,7 +60,7 @@ def work(ctx, tier):
         ctx.inc("sweep_scenarios")
     n = (9000 if tier == "quick" else 250000) // ctx.nshards
     for k in range(n):
-        sc = gen.rand_scenario(rng, p_special=0.08, specials=("abort", "nested_exh", "nested_open", "cancel", "kbd", "sysexit"), p_budget=0.3, p_handler=0.4, p_abort=0.3, p_breaker=0.3, ncalls=(1, 2), placements=(k % 5 == 0), p_res_none=0.2, p_exc_same=0.1, poll_kinds=True, p_strategy_objects=0.3, slow_hooks=(k % 3 == 1), rf_time=True)
+        sc = gen.rand_scenario(rng, p_special=0.08, specials=("abort", "nested_exh", "nested_open", "cancel", "kbd", "sysexit", "timeout", "timeout"), p_attempt_timeout=0.15, p_budget=0.3, p_handler=0.4, p_abort=0.3, p_breaker=0.3, ncalls=(1, 2), placements=(k % 5 == 0), p_res_none=0.2, p_exc_same=0.1, poll_kinds=True, p_strategy_objects=0.3, slow_hooks=(k % 3 == 1), rf_time=True)
         if k % 9 == 0:
             sc["cfg"]["no_retry"] = True
         for e in common.pick_entries(rng, entries, 3):
